@@ -99,4 +99,10 @@ TEXT = {
         design_ref='DESIGN.md §5 C03, §6',
         note="partial: rustc, the macro expander and the codec derive are modelled; 'faithful registry' is C02's conclusion transported through the driver's TyExpr->Nat encoding. KNOWN-FINDING: #[codec(encoded_as)] is ignored by the derive.",
     ),
+    'C19': dict(
+        technique='translator (the JSON Schema the real code generates, re-extracted on every run into a Lean term) + Lean 4 proof that a draft-07 validator accepts the modelled serialisation of EVERY registry against that schema + reference validation of real serialisations with python jsonschema',
+        level="Proof + translation: SIM.C19.schema_accepts (for every registry r, validates(schema, ofRegistry r) = true, one acceptance lemma per schema definition incl. the 8-way and 15-way oneOf), extracted_is_expected (the schema extracted from the real schema_for!(PortableRegistry) on THIS run is, term for term, the one the theorem is about - rfl), schema_accepts_extracted. Tie: a harness built with scale-info's schema feature dumps the real schema and real serialisations of generated registries; python jsonschema validates each (oracle) and the Lean validator is compared with jsonschema on every document and on 3 mutations of it; the model serialiser is compared with serde's output.",
+        design_ref='DESIGN.md §5 C19',
+        note="schemars and draft-07 semantics are modelled (subset: type, required, properties, items, $ref, allOf, anyOf, oneOf, enum, additionalProperties:false, minimum); the translator refuses anything else. A schema change breaks extracted_is_expected; the search then looks for a generated registry the new schema rejects.",
+    ),
 }
